@@ -16,31 +16,36 @@ Specification vocabulary (`NdnProofs/Lemmas/Cascade.lean`; does not mention the 
 * `Unforgeable`, `Correct` — the ideal-signature hypotheses tying the crypto library's answer
   (`E.crypto`) to `Signed`; they are hypotheses of the theorems, never axioms.
 
+All theorems are generic in the type `N` of names (only equality of names is used); the signing check
+of the schema is the parameter `E.allowed`.  `NdnProofs/Props/C14Lvs.lean` instantiates `N` with real
+names and `allowed` with the model of `Checker.check` (property C12), so that "every link is allowed"
+is spelled out in terms of rule matching.  The examples below use opaque names (`Name = Nat`).
+
 "No verdict" (`verdict = none`) is fuel exhaustion: the model of a validation that does not
 terminate (certificate loop served for ever).  It is never an acceptance (`validate_sound`).
 -/
 namespace Ndn.C14
 open Ndn Ndn.Cascade
 
-variable (E : Env) (Signed : Key → Obj → Prop)
+variable {N : Type} [DecidableEq N] (E : Env N) (Signed : Key → Obj N → Prop)
 
 /-- **validate_sound.** Whatever the fuel, the storage (as long as it satisfies the invariant) and
     the packet: if the validator accepts, there is a valid chain to the anchor. -/
-theorem validate_sound (hu : Unforgeable E Signed) (fuel : Nat) (st : Cache) (o : Obj)
+theorem validate_sound (hu : Unforgeable E Signed) (fuel : Nat) (st : Cache N) (o : Obj N)
     (hinv : CacheInv E Signed st) (h : (validate E fuel st o).verdict = some .accept) :
     Chain E Signed o :=
   validate_sound_aux E Signed hu fuel st o hinv h
 
 /-- **validate_complete.** A packet with a chain of `d` intermediate certificates is accepted by any
     run with more than `d` units of fuel, from any storage satisfying the invariant. -/
-theorem validate_complete (hc : Correct E Signed) (d : Nat) (o : Obj) (h : ChainD E Signed d o)
-    (fuel : Nat) (st : Cache) (hinv : CacheInv E Signed st) (hf : d < fuel) :
+theorem validate_complete (hc : Correct E Signed) (d : Nat) (o : Obj N) (h : ChainD E Signed d o)
+    (fuel : Nat) (st : Cache N) (hinv : CacheInv E Signed st) (hf : d < fuel) :
     (validate E fuel st o).verdict = some .accept :=
   validate_complete_aux E Signed hc d o h fuel st hinv hf
 
 /-- **verdict_iff_chain.** Whenever a verdict is reached it is `accept` exactly when a chain exists. -/
-theorem verdict_iff_chain (hu : Unforgeable E Signed) (hc : Correct E Signed) (fuel : Nat) (st : Cache)
-    (o : Obj) (hinv : CacheInv E Signed st) (v : Verdict) (h : (validate E fuel st o).verdict = some v) :
+theorem verdict_iff_chain (hu : Unforgeable E Signed) (hc : Correct E Signed) (fuel : Nat) (st : Cache N)
+    (o : Obj N) (hinv : CacheInv E Signed st) (v : Verdict) (h : (validate E fuel st o).verdict = some v) :
     v = .accept ↔ Chain E Signed o := by
   constructor
   · intro hv; subst hv; exact validate_sound E Signed hu fuel st o hinv h
@@ -51,14 +56,14 @@ theorem verdict_iff_chain (hu : Unforgeable E Signed) (hc : Correct E Signed) (f
 
 /-- **cache_inv_preserved.** Every validation (accepting, rejecting, raising or running out of
     fuel) leaves the storage invariant intact. -/
-theorem cache_inv_preserved (hu : Unforgeable E Signed) (fuel : Nat) (st : Cache) (o : Obj)
+theorem cache_inv_preserved (hu : Unforgeable E Signed) (fuel : Nat) (st : Cache N) (o : Obj N)
     (hinv : CacheInv E Signed st) : CacheInv E Signed (validate E fuel st o).cache :=
   cache_inv_preserved_aux E Signed hu fuel st o hinv
 
 /-- **verdict_history_independent.** For an instance with private storage (initially empty): after
     any two histories of earlier validations, the verdicts on the same packet agree on acceptance. -/
 theorem verdict_history_independent (hu : Unforgeable E Signed) (hc : Correct E Signed)
-    (h1 h2 : List (Nat × Obj)) (f1 f2 : Nat) (o : Obj) (v1 v2 : Verdict)
+    (h1 h2 : List (Nat × Obj N)) (f1 f2 : Nat) (o : Obj N) (v1 v2 : Verdict)
     (e1 : (validate E f1 (runHist E [] h1) o).verdict = some v1)
     (e2 : (validate E f2 (runHist E [] h2) o).verdict = some v2) :
     v1 = .accept ↔ v2 = .accept := by
@@ -69,17 +74,17 @@ theorem verdict_history_independent (hu : Unforgeable E Signed) (hc : Correct E 
 /-- **other_instances_irrelevant.** In a system of instances with private storages, the storage of
     instance `i` after any interleaved history is the one `i` would have built from its own steps
     alone — what the other instances validated does not reach it. -/
-theorem other_instances_irrelevant (envs : Nat → Env) (i : Nat) (h : List (Nat × Nat × Obj))
-    (cs : Nat → Cache) :
+theorem other_instances_irrelevant (envs : Nat → Env N) (i : Nat) (h : List (Nat × Nat × Obj N))
+    (cs : Nat → Cache N) :
     runSys envs cs h i = runHist (envs i) (cs i) ((h.filter fun s => s.1 = i).map fun s => s.2) :=
   runSys_proj envs i h cs
 
 /-- **system_verdict_iff_chain.** Several instances (different anchors / schemas, one world), any
     interleaved history from empty storages: a verdict of instance `i` is `accept` exactly when the
     packet has a chain to `i`'s anchor under `i`'s schema. -/
-theorem system_verdict_iff_chain (envs : Nat → Env)
+theorem system_verdict_iff_chain (envs : Nat → Env N)
     (hu : ∀ i, Unforgeable (envs i) Signed) (hc : ∀ i, Correct (envs i) Signed)
-    (h : List (Nat × Nat × Obj)) (i fuel : Nat) (o : Obj) (v : Verdict)
+    (h : List (Nat × Nat × Obj N)) (i fuel : Nat) (o : Obj N) (v : Verdict)
     (e : (validate (envs i) fuel (runSys envs (fun _ => []) h i) o).verdict = some v) :
     v = .accept ↔ Chain (envs i) Signed o := by
   rw [other_instances_irrelevant] at e
@@ -90,21 +95,22 @@ theorem system_verdict_iff_chain (envs : Nat → Env)
     closed under "key locator of the certificate served under that name" and does not contain the
     anchor (a certificate loop), then no run, with any fuel and any reachable storage, accepts `o`;
     running out of fuel yields no verdict, not an acceptance. -/
-theorem loop_never_accepted (hu : Unforgeable E Signed) (S : Name → Prop)
+theorem loop_never_accepted (hu : Unforgeable E Signed) (S : N → Prop)
     (hS : ∀ n c, S n → E.world n = some (.data c) → ∃ m, c.keyLoc = some m ∧ S m)
-    (hA : ¬ S E.anchorName) (o : Obj) (n : Name) (hn : o.keyLoc = some n) (hs : S n)
-    (fuel : Nat) (st : Cache) (hinv : CacheInv E Signed st) :
+    (hA : ¬ S E.anchorName) (o : Obj N) (n : N) (hn : o.keyLoc = some n) (hs : S n)
+    (fuel : Nat) (st : Cache N) (hinv : CacheInv E Signed st) :
     (validate E fuel st o).verdict ≠ some .accept ∧ (validate E 0 st o).verdict = none := by
   refine ⟨fun h => ?_, by simp [validate]⟩
   obtain ⟨d, hd⟩ := validate_sound E Signed hu fuel st o hinv h
   exact no_chain_in_closed_set E Signed S hS hA d o hd n hn hs
 
+omit [DecidableEq N] in
 /-- **construct_refuses.** The validator is built exactly when the user functions are present, the
     anchor's name matches (at least one rule and) every root of trust of the schema, and the anchor's
     signature verifies under its own key; the instance then holds the anchor's name and key. -/
-theorem construct_refuses (crypto : Key → Obj → Bool)
+theorem construct_refuses (crypto : Key → Obj N → Bool)
     (hu : ∀ k o, crypto k o = true → Signed k o) (hc : ∀ k o, Signed k o → crypto k o = true)
-    (s : Setup) (n : Name) (k : Key) :
+    (s : Setup N) (n : N) (k : Key) :
     construct crypto s = .ok (n, k) ↔
       (s.userFnsOk = true ∧ s.matched ≠ [] ∧ (∀ r ∈ s.roots, r ∈ s.matched) ∧
         Verifies Signed s.anchorKey s.anchor ∧ n = s.anchor.name ∧ k = s.anchorKey) := by
@@ -160,24 +166,24 @@ theorem caught_exceptions :
 /-! ### non-vacuity: a concrete two-anchor world -/
 
 /-- who signed: the signature token names the signing key pair -/
-def GSigned (k : Key) (o : Obj) : Prop := o.sig = some k.id
+def GSigned (k : Key) (o : Obj N) : Prop := o.sig = some k.id
 
-def gcrypto (k : Key) (o : Obj) : Bool := o.sig == some k.id
+def gcrypto (k : Key) (o : Obj N) : Bool := o.sig == some k.id
 
 /-- name 1 = anchor A, 2 = anchor B, 3 = a certificate issued by A, 4 = a packet signed by 3 -/
-def certA : Obj := ⟨1, some 1, .ecdsa, some 10, some ⟨.ec, 10⟩⟩
-def cert3 : Obj := ⟨3, some 1, .ecdsa, some 10, some ⟨.ec, 30⟩⟩
-def pkt4 : Obj := ⟨4, some 3, .ecdsa, some 30, none⟩
-def gworld (n : Name) : Option Outcome :=
+def certA : Obj Name := ⟨1, some 1, .ecdsa, some 10, some ⟨.ec, 10⟩⟩
+def cert3 : Obj Name := ⟨3, some 1, .ecdsa, some 10, some ⟨.ec, 30⟩⟩
+def pkt4 : Obj Name := ⟨4, some 3, .ecdsa, some 30, none⟩
+def gworld (n : Name) : Option (Outcome Name) :=
   if n = 1 then some (.data certA) else if n = 3 then some (.data cert3) else none
 def gallowed (a b : Name) : Bool := !(a == b)
-def EA : Env := ⟨gallowed, gcrypto, gworld, 1, ⟨.ec, 10⟩⟩
-def EB : Env := ⟨gallowed, gcrypto, gworld, 2, ⟨.ec, 20⟩⟩
+def EA : Env Name := ⟨gallowed, gcrypto, gworld, 1, ⟨.ec, 10⟩⟩
+def EB : Env Name := ⟨gallowed, gcrypto, gworld, 2, ⟨.ec, 20⟩⟩
 
-theorem g_unforgeable (E : Env) (h : E.crypto = gcrypto) : Unforgeable E GSigned := by
+theorem g_unforgeable (E : Env Name) (h : E.crypto = gcrypto) : Unforgeable E GSigned := by
   intro k o hc; rw [h] at hc; simpa [gcrypto, GSigned] using hc
 
-theorem g_correct (E : Env) (h : E.crypto = gcrypto) : Correct E GSigned := by
+theorem g_correct (E : Env Name) (h : E.crypto = gcrypto) : Correct E GSigned := by
   intro k o hs; rw [h]; simpa [gcrypto, GSigned] using hs
 
 theorem chain_pkt4 : ChainD EA GSigned 1 pkt4 :=
@@ -197,7 +203,7 @@ example : CacheInv EA GSigned (validate EA 2 [] pkt4).cache ∧ (validate EA 2 [
 /-- instance B (another anchor) has no chain for the packet and rejects it, fresh or after any history -/
 example : (validate EB 5 [] pkt4).verdict = some .reject := by decide
 
-example (h : List (Nat × Nat × Obj)) (f : Nat) (v : Verdict)
+example (h : List (Nat × Nat × Obj Name)) (f : Nat) (v : Verdict)
     (e : (validate EB f (runSys (fun i => if i = 0 then EA else EB) (fun _ => []) h 1) pkt4).verdict = some v) :
     v ≠ .accept := by
   intro hv
